@@ -106,11 +106,13 @@ def check(repo, run, tier):
     g(unitrules.getter_table, repo, run, 'C04.R2')
     g(unitrules.first_not_missing_table, repo, run, 'C04.R11')
     g(unitrules.propagate_implicit_table, repo, run, 'C04.R2', ('delete',))
+    g(unitrules.node_identity_discipline, repo, run, 'C04.R12')
     g.done()
 
 
 def mutants(repo):
     return [
+        Mutant('child-looked-up-by-value', lambda r: in_func(r, 'ComposedNode.ayns.nodes_with_paths', "if child is None or (id(child) in memo and not allow_duplicates):", "if child is None or (child in memo and not allow_duplicates):"), ['C04.R12']),
         Mutant('explicit-merge-overwritten-by-inherited-delete', lambda r: in_func(r, 'ComposedNode._propagate_implicit_values', "            if self._delete is None:", "            if not self._delete:"), ['C04.R2']),
         Mutant('falsy-counterpart-counts-as-missing', lambda r: in_func(r, 'ComposedNode.ayns.get_first_not_missing_node', "            if _get_node(nodes[-1]) is not None:", "            if _get_node(nodes[-1]):"), ['C04.R11']),
         Mutant('explicit-delete-getter', lambda r: in_func(r, 'ConfigNode.ayns.explicit_delete', "return self._delete", "return None"), ['C04.R2']),
